@@ -101,7 +101,7 @@ def run(res, f, tier):
     clo = None
     if ok:
         A = anyc[0]
-        import re
+        pass
         m = re.fullmatch(r"Iter::any\((?:\[Rule\]::iter\(self\.rules\)|into_iter\(self\.rules\)), closure\(([^,]+), rule\.name\)\)", A)
         ok = bool(m)
         if m:
